@@ -381,4 +381,80 @@ class ServiceEvents(Sub):
         return Result(viol, isinstance(tags, dict) or encrypt, ["backend:" + backend])
 
 
-SUBCHECKS = [Authentic(), ServiceEvents()]
+class Twins(Sub):
+    """a forged copy (same id) and the genuine event are being validated at the same time on two connections"""
+
+    name = "twins"
+    examples = {"quick": 300, "thorough": 2400}
+    shards = {"quick": 6, "thorough": 12}
+    rule = ("genuine event E and a copy with E's id but another signature / content / pubkey / tags are fed on two connections "
+            "in a drawn order while the validation jobs wait for a worker thread, then the jobs run in a drawn order; oracle: E "
+            "is acknowledged OK true, stored as sent and pushed once; the copy is refused; non-trivial = always (both in flight)")
+
+    def strategy(self, tier):
+        return st.tuples(st.sampled_from(["kv", "sql"]), st.integers(0, 2), st.sampled_from([1, 1, 30000, 20000]),
+                         st.sampled_from(["sig-nibble", "sig-other-key", "content", "pubkey-other", "tag-add", "created_at"]),
+                         st.booleans(), st.booleans()).map(list)
+
+    def run_case(self, case):
+        return H.run(self._run, case)
+
+    async def _run(self, case):
+        backend, k, kind, mut, forged_first, release_forged_first = case
+        viol = []
+        base = E.make(k, kind, E.T0, [["d", "x"]] if kind == 30000 else [["t", "a"]], "genuine")
+        other = E.make((k + 1) % 3, 1, E.T0, [], "other")
+        forged = _mutate_one(json.loads(json.dumps(base)), mut, {"k": k, "other": other, "event": base})
+        if forged["id"] != base["id"] or E.authentic(forged)[0]:
+            raise H.HarnessError("twin is not a forged copy with the same id")
+        async with H.Rig(backend) as rig:
+            w = rig.conn("10.0.0.9")
+            await w.send(["REQ", "w", {"since": 1}])
+            a, b = rig.conn("10.0.0.1"), rig.conn("10.0.0.2")
+            vexec = asyncio.get_running_loop().inline_executor
+            vexec.park = True
+            first, second = (b, a) if forged_first else (a, b)
+            first.feed(["EVENT", forged if forged_first else base], 0)
+            for _ in range(6):
+                await asyncio.sleep(0)
+            second.feed(["EVENT", base if forged_first else forged], 0)
+            for _ in range(6):
+                await asyncio.sleep(0)
+            vexec.park = False
+            n_jobs = len(vexec.parked)
+            forged_idx = 0 if forged_first else 1
+            if n_jobs >= 2 and not release_forged_first:
+                forged_idx_now = forged_idx
+                vexec.release(1 - forged_idx_now)
+                for _ in range(6):
+                    await asyncio.sleep(0)
+            vexec.release_all()
+            await rig.settle()
+            fa = [f for f in a.frames() if f[0] == "OK"]
+            fb = [f for f in b.frames() if f[0] == "OK"]
+            stored = await rig.dump()
+            if not (fa and fa[0][2] is True):
+                viol.append(V("%s-genuine-refused-while-forged-twin-in-flight" % backend,
+                              "an authentic event is accepted whatever else is being validated", ok=fa[:1], mutation=mut, case=case,
+                              validation_jobs=n_jobs))
+            if fb and fb[0][2] is True:
+                viol.append(V("%s-forged-twin-acknowledged" % backend, "only authentic events are acknowledged", ok=fb[:1], mutation=mut))
+            if not R_is_ephemeral(kind):
+                got = stored.get(base["id"])
+                if not viol and (got is None or not same(got, base)):
+                    viol.append(V("%s-stored-differs-from-genuine" % backend, "only authentic events are stored", stored=got, mutation=mut))
+            pushed = [f[2] for f in w.frames() if f[0] == "EVENT" and f[2].get("id") == base["id"]]
+            for p_ in pushed:
+                if not E.authentic(p_)[0]:
+                    viol.append(V("%s-inauthentic-pushed:twin" % backend, "only authentic events are forwarded", mutation=mut))
+            for c in (a, b, w):
+                if not c.task.done():
+                    await c.disconnect()
+        return Result(viol[:2], True, ["backend:" + backend, "mut:" + mut, "jobs:%d" % n_jobs])
+
+
+def R_is_ephemeral(kind):
+    return 20000 <= kind < 30000
+
+
+SUBCHECKS = [Authentic(), ServiceEvents(), Twins()]
